@@ -14,7 +14,8 @@ the same through both maps; this is what `SetAbsoluteTolerances` does, `C14_atol
 two `rosSolve` runs — any LU variant, CSR/CSC, group lengths on each side — return the same
 status, final time, counters and step history, and the same concentration for every species name
 (`C14_solution_by_name`, from `C12_solve_relabel`; exact arithmetic over any field `K`, arbitrary
-primitives `Ops K`; no pivot vanishes in either run).
+primitives `Ops K`; no pivot vanishes in either run).  `C14_be_solution_by_name`: the same for
+`beSolve`.
 
 Vocabulary: `NmBij m n` (`m` is a sorted bijection of its keys onto `0 … n−1`), `nameSigma m₁ m₂`
 (index ↦ name in `m₁` ↦ index in `m₂`), `ByName m₁ m₂ x₁ x₂` (`Micm/Lemmas/RelabelNames.lean`).
@@ -203,6 +204,61 @@ theorem C14_solution_by_name
   exact ⟨g1, g2, fun c hc => (byName_relabel_iff hb₁ σ _ _).mpr (g3.2.2 c hc), g4, g5, g6, g7, g8, g9,
     g10, g11⟩
 
+/-- **C14, the solution by name, backward Euler**: the same for `beSolve` (same status, final
+    time, all statistics, sequence of step sizes; same concentration per species name) -/
+theorem C14_be_solution_by_name (pb : BEParams K)
+    {dflt₁ dflt₂ : K} {labelsOf₁ labelsOf₂ : List (Process K) → List String}
+    {inp₁ inp₂ : BuildInput K} {b₁ b₂ : Built K} {sys₁ sys₂ : SystemDecl K} {procs : List (Process K)}
+    (h₁ : build dflt₁ labelsOf₁ inp₁ = .ok b₁) (h₂ : build dflt₂ labelsOf₂ inp₂ = .ok b₂)
+    (hsys₁ : inp₁.system = some sys₁) (hsys₂ : inp₂.system = some sys₂)
+    (hr₁ : inp₁.reactions = some procs) (hr₂ : inp₂.reactions = some procs)
+    (hn : sys₁.uniqueNames.Nodup) (hperm : sys₂.uniqueNames.Perm sys₁.uniqueNames)
+    (hparam : ∀ q ∈ procs, ∀ r ∈ q.reactants, r.param = true → r.name ∉ sys₁.uniqueNames)
+    (s₁ s₂ : SolverCfg K) (csc₁ csc₂ : Bool) (Ls₁ Ls₂ : Nat) (kind₁ kind₂ : LUKind)
+    (hs₁ : CfgBuilt s₁ b₁.tables b₁.nSpecies csc₁ Ls₁ kind₁)
+    (hs₂ : CfgBuilt s₂ b₂.tables b₂.nSpecies csc₂ Ls₂ kind₂)
+    (nCells : Nat) (atol₁ atol₂ : Array K) (hat : ByName b₁.speciesMap b₂.speciesMap atol₁ atol₂)
+    (Y₁ Y₂ : Mat K) (hYs₁ : MatShape nCells b₁.nSpecies Y₁) (hYs₂ : MatShape nCells b₂.nSpecies Y₂)
+    (hY : ∀ c, c < nCells → ByName b₁.speciesMap b₂.speciesMap (Y₁.getD c #[]) (Y₂.getD c #[]))
+    (sc₁ sc₂ : Scratch K) (fuel : Nat)
+    (hf₁ : MatShape nCells b₁.nSpecies sc₁.f0) (hj₁ : MatShape nCells s₁.la.A.nnz sc₁.jac)
+    (hl₁ : s₁.la.kind.inPlace = false → MatShape nCells s₁.la.Lp.nnz sc₁.lower)
+    (hu₁ : s₁.la.kind.inPlace = false → MatShape nCells s₁.la.Up.nnz sc₁.upper)
+    (hf₂ : MatShape nCells b₂.nSpecies sc₂.f0) (hj₂ : MatShape nCells s₂.la.A.nnz sc₂.jac)
+    (hl₂ : s₂.la.kind.inPlace = false → MatShape nCells s₂.la.Lp.nnz sc₂.lower)
+    (hu₂ : s₂.la.kind.inPlace = false → MatShape nCells s₂.la.Up.nnz sc₂.upper)
+    (hpiv₁ : ∀ j, j < fuel → BEPivotsOK o kc T s₁ nCells b₁.nSpecies
+      ((beStep o s₁ pb kc atol₁ rtol T)^[j] (beInit (beInitialH o pb T) Y₁ sc₁)))
+    (hpiv₂ : ∀ j, j < fuel → BEPivotsOK o kc T s₂ nCells b₂.nSpecies
+      ((beStep o s₂ pb kc atol₂ rtol T)^[j] (beInit (beInitialH o pb T) Y₂ sc₂))) :
+    (beSolve o s₂ pb kc atol₂ rtol T Y₂ sc₂ fuel).status
+        = (beSolve o s₁ pb kc atol₁ rtol T Y₁ sc₁ fuel).status ∧
+    (beSolve o s₂ pb kc atol₂ rtol T Y₂ sc₂ fuel).finalTime
+        = (beSolve o s₁ pb kc atol₁ rtol T Y₁ sc₁ fuel).finalTime ∧
+    (beSolve o s₂ pb kc atol₂ rtol T Y₂ sc₂ fuel).stats
+        = (beSolve o s₁ pb kc atol₁ rtol T Y₁ sc₁ fuel).stats ∧
+    (∀ c, c < nCells → ByName b₁.speciesMap b₂.speciesMap
+      ((beSolve o s₁ pb kc atol₁ rtol T Y₁ sc₁ fuel).Y.getD c #[])
+      ((beSolve o s₂ pb kc atol₂ rtol T Y₂ sc₂ fuel).Y.getD c #[])) ∧
+    (beSolve o s₂ pb kc atol₂ rtol T Y₂ sc₂ fuel).trace.map (·.h)
+        = (beSolve o s₁ pb kc atol₁ rtol T Y₁ sc₁ fuel).trace.map (·.h) := by
+  obtain ⟨hb₁, hk₁, -, hp₁⟩ := C14_build_bijection h₁ hsys₁ hn
+  obtain ⟨-, -, -, hp₂⟩ := C14_build_bijection h₂ hsys₂ (hperm.nodup_iff.mpr hn)
+  obtain ⟨e, hinj, hrng, hrel, -⟩ := C14_builds_relabel h₁ h₂ hsys₁ hsys₂ hn hperm
+  rw [hr₁, Option.getD_some] at hp₁
+  rw [hr₂, Option.getD_some] at hp₂
+  rw [e] at hs₂ hYs₂ hf₂ hpiv₂
+  generalize nameSigma b₁.speciesMap b₂.speciesMap = σ at hinj hrng hrel
+  rw [hrel] at hp₂ hat hY ⊢
+  have hmech : Mechanism procs b₁.speciesMap b₁.tables b₁.nSpecies :=
+    Mechanism.of_bij hp₁ hb₁ (fun q hq r hr hpar hmem => hparam q hq r hr hpar (hk₁.mem_iff.mp hmem))
+  obtain ⟨g1, g2, g3, g4, g5⟩ :=
+    C12_be_solve_relabel o kc atol₁ atol₂ rtol T pb σ hinj hrng hmech hp₂ s₁ s₂ csc₁ csc₂ Ls₁ Ls₂
+      kind₁ kind₂ hs₁ hs₂ nCells ((byName_relabel_iff hb₁ σ _ _).mp hat) Y₁ Y₂ hYs₁ hYs₂
+      (fun c hc => (byName_relabel_iff hb₁ σ _ _).mp (hY c hc)) sc₁ sc₂ fuel
+      hf₁ hj₁ hl₁ hu₁ hf₂ hj₂ hl₂ hu₂ hpiv₁ hpiv₂
+  exact ⟨g1, g2, g3, fun c hc => (byName_relabel_iff hb₁ σ _ _).mpr (g4.2.2 c hc), g5⟩
+
 end Solve
 
 /-! ## Examples: C02's mechanism `s0 + s0 + s1 → 2 s2 ; s2 → s0` built from a `SystemDecl`,
@@ -355,3 +411,4 @@ end Micm
 #print axioms Micm.C14_atol_by_name
 #print axioms Micm.C14_byName_of_entries
 #print axioms Micm.C14_solution_by_name
+#print axioms Micm.C14_be_solution_by_name
